@@ -28,8 +28,13 @@ impl SwiftField for Field26T {
         // Must be exactly 3 characters
         let type_code = parse_exact_length(input, 3, "Field 26T type code")?;
 
-        // Must be alphanumeric
+        // Must be alphanumeric, letters in upper case (3!c)
         parse_alphanumeric(&type_code, "Field 26T type code")?;
+        if type_code.chars().any(|c| c.is_lowercase()) {
+            return Err(crate::errors::ParseError::InvalidFormat {
+                message: "Field 26T type code must be upper case".to_string(),
+            });
+        }
 
         Ok(Field26T { type_code })
     }
